@@ -47,7 +47,7 @@ PERM3 = list(itertools.permutations(range(3)))
 
 @H.ob(model="none", quick=300, thorough=900,
       targets=("clematis/engine/util/parallel.py:run_parallel",), stubs=_POOL_STUB,
-      bounds="n = 0..3 tasks (thorough: 4) with symbolic order keys in 0..1 (thorough 0..2; ties allowed), completion order: every permutation (symbolic index), max_workers 0..3 (thorough 0..8), failing subset by mask (one job each)",
+      bounds="n = 0..3 tasks (thorough: 4) with symbolic order keys in 0..1 (thorough 0..2 for n <= 3; ties allowed), completion order: every permutation (symbolic index), max_workers 0..3 (thorough 0..8), failing subset by mask (one job each)",
       split={"n": ([0, 1, 2, 3, 4] if H.THOROUGH else [0, 1, 2, 3]), "mask": (list(range(16)) if H.THOROUGH else list(range(8)))},
       note="C09.a helper: the result is merge_fn over all task results sorted by (key, submit index) whatever the completion order; workers <= 1 is a plain loop; failures: ParallelError lists every failed task in (key, submit index) order (pool path) and merge_fn is never called with partial results")
 def helper(n: int, k0: int, k1: int, k2: int, k3: int, perm: int, workers: int, mask: int) -> bool:
@@ -55,6 +55,7 @@ def helper(n: int, k0: int, k1: int, k2: int, k3: int, perm: int, workers: int, 
     pre: 0 <= n <= 4 and 0 <= perm < 24 and 0 <= workers <= 8 and 0 <= mask < 16
     pre: 0 <= k0 <= 2 and 0 <= k1 <= 2 and 0 <= k2 <= 2 and 0 <= k3 <= 2
     pre: n == 4 or perm < 6
+    pre: n < 4 or (k0 <= 1 and k1 <= 1 and k2 <= 1 and k3 <= 1)
     pre: H.THOROUGH or (workers <= 3 and k0 <= 1 and k1 <= 1 and k2 <= 1)
     post: _
     """
